@@ -609,17 +609,18 @@ func (l *pipeListener) Close() error   { close(l.done); return nil }
 func (l *pipeListener) Addr() net.Addr { return &net.TCPAddr{IP: net.IPv4(127, 0, 0, 1), Port: 80} }
 
 type env struct {
-	ln        *pipeListener
-	srv       *http.Server
-	cur       *trace
-	last      *captured
-	clients   map[int]*req.Client
-	reqs      map[int]*req.Request
-	reqCl     map[int]int
-	sinks     []*sink        // by token
-	rootPEM   []string       // by token
-	rootSub   map[string]int // raw subject -> token
-	asyncSeen bool           // an asynchronous dump was configured in this program: no byte accounting on the sinks
+	ln         *pipeListener
+	srv        *http.Server
+	cur        *trace
+	last       *captured
+	clients    map[int]*req.Client
+	reqs       map[int]*req.Request
+	reqCl      map[int]int
+	sinks      []*sink         // by token
+	rootPEM    []string        // by token
+	rootSub    map[string]int  // raw subject -> token
+	serverCert tls.Certificate // self-signed (root token 1): the in-memory TLS peer of the fingerprint scenario
+	asyncSeen  bool            // an asynchronous dump was configured in this program: no byte accounting on the sinks
 }
 
 func (e *env) sinkFor(tok int) io.Writer {
@@ -650,7 +651,7 @@ func (e *env) initTLSMaterial() error {
 		if err != nil {
 			return err
 		}
-		tmpl := &x509.Certificate{SerialNumber: big.NewInt(int64(i)), Subject: pkix.Name{CommonName: "c19-root-" + strconv.Itoa(i)},
+		tmpl := &x509.Certificate{SerialNumber: big.NewInt(int64(i)), Subject: pkix.Name{CommonName: "c19-root-" + strconv.Itoa(i)}, DNSNames: []string{"c19.test"},
 			NotBefore: time.Unix(0, 0), NotAfter: time.Unix(4000000000, 0), IsCA: true, BasicConstraintsValid: true, KeyUsage: x509.KeyUsageCertSign}
 		der, err := x509.CreateCertificate(rand.Reader, tmpl, tmpl, &key.PublicKey, key)
 		if err != nil {
@@ -661,6 +662,9 @@ func (e *env) initTLSMaterial() error {
 			return err
 		}
 		e.rootPEM[i] = string(pem.EncodeToMemory(&pem.Block{Type: "CERTIFICATE", Bytes: der}))
+		if i == 1 {
+			e.serverCert = tls.Certificate{Certificate: [][]byte{der}, PrivateKey: key}
+		}
 		e.rootSub[string(cert.RawSubject)] = i
 	}
 	return nil
